@@ -459,9 +459,12 @@ def swap (vr : VR) (s : SA) (vas : List Vtx) (a : Chip) (vbs : List Vtx) (b : Ch
   let m2 ← (m1.set b rb).elim (.error .indexError) pure
   pure { m := m2, p := p, l2v := aset (aset s.l2v a la) b lb }
 
-/-- one `_step` given the drawn vertex, the drawn destination (≠ source) and the final accept
-decision; returns the new state and whether the swap was possible at all -/
+/-- one `_step` given the drawn vertex (one of the movable vertices: a fixed vertex is not a
+possible draw), the drawn destination (≠ source) and the final accept decision; returns the new
+state and whether the swap was possible at all -/
 def saStep (vr : VR) (fixed : List Vtx) (s : SA) (src : Vtx) (dst : Chip) (accept : Bool) : M (SA × Bool) :=
+  -- `random.choice(vertices)`: `vertices` is the kernel's list of *movable* vertices
+  if src ∈ fixed then .error .badOracle else
   match aget s.p src with
   | none => .error .keyError
   | some srcLoc =>
